@@ -1,30 +1,10 @@
-(* Props/C07Known.v — the findings of C07 on the current tree.
-   Still present: q_parent_evidence_raw_path (refutation witness below).
-   Repaired in /repo (known.d: "fixed"): q_par_crossfile_lost, q_worker_swallows_errors - their old witnesses are
-   REGRESSION theorems now (Proofs/OrchParRegress.v, restated in Props/C07.v). *)
-From Coq Require Import Permutation.
-From TL Require Import Lib.Base Lib.GenTypes Model.OrchParTypes Gen.OrchParGen Model.OrchPar Model.OrchParRun
-     Actual.OrchParActual Proofs.OrchParMain Proofs.OrchParRegress.
+(* Props/C07Known.v — refutation witnesses of the findings of C07 that are still present on the current tree.
+   There is none: q_par_crossfile_lost (c35e782), q_worker_swallows_errors (bfec1ed) and q_parent_evidence_raw_path
+   (10c403e) are repaired in /repo; their witnesses are regression theorems now (Proofs/OrchParRegress.v, restated in
+   Props/C07.v).  What is recorded here is that no flag of the claimed vector is effective any more. *)
+(* Model.OrchParRun (the judge of the correspondence check) is imported so that it is rebuilt with this cone *)
+From TL Require Import Lib.Base Lib.GenTypes Model.OrchParTypes Gen.OrchParGen Model.OrchPar Model.OrchParRun Actual.OrchParActual.
 
-Definition none_seen (f : nat) : bool := false.
-
-(* ---- still present ---- *)
-(* the evidence loop of the parent decides built-in exclusion on the path as given, lint_file on the path inside
-   the project: the flag is effective *)
-Theorem C07_parent_loop_differs_from_lint_file : parent_exclusion_like_lint_file = false /\ parent_restricts orchpar_actual = true.
-Proof. split; reflexivity. Qed.
-
-(* a project that lives under a directory named like a built-in exclusion (build/, dist/, venv/ ...) and is addressed
-   by absolute paths: four files sharing a block, two workers; every file is linted, the parent visits none *)
-Theorem C07_parent_evidence_raw_path_refuted :
-  par_run nat nat (fun _ => Some []) (fun f => f) w_report none_seen orchpar_actual (Some 2) 16 [0;1;2;3] [0;1;2;3] = Some []
-  /\ seq_run nat nat (fun _ => Some []) (fun f => f) w_report [0;1;2;3] = Some (map dup [0;1;2;3])
-  /\ ~ out_equiv (par_run nat nat (fun _ => Some []) (fun f => f) w_report none_seen orchpar_actual (Some 2) 16 [0;1;2;3] [0;1;2;3])
-                 (seq_run nat nat (fun _ => Some []) (fun f => f) w_report [0;1;2;3])
-  /\ exit_code (FStartsWith "dry.", 1, 0) (par_run nat nat (fun _ => Some []) (fun f => f) w_report none_seen orchpar_actual (Some 2) 16 [0;1;2;3] [0;1;2;3]) = 0
-  /\ exit_code (FStartsWith "dry.", 1, 0) (seq_run nat nat (fun _ => Some []) (fun f => f) w_report [0;1;2;3]) = 1.
-Proof.
-  split; [reflexivity|]. split; [reflexivity|]. split; [|split; reflexivity].
-  vm_compute. intros H. apply Permutation_length in H. discriminate H.
-Qed.
-
+Theorem C07_no_flag_effective :
+  crossfile_lost orchpar_actual = false /\ parent_restricts orchpar_actual = false /\ swallows orchpar_actual = false.
+Proof. repeat split; reflexivity. Qed.
